@@ -351,7 +351,7 @@ func c12Spell(d time.Duration, unit int) string {
 	return fmt.Sprintf("%d.%s%s", q, frac, u.name)
 }
 
-var c12Spacings = []string{"", " ", "  "}
+var c12Spacings = []string{"", " ", "  ", "\t", "\n "} // what strings.TrimSpace takes off: blanks, tabs, line breaks (a value wrapped over lines in a script)
 
 // c12Spec renders the list with a spacing and a unit spelling.
 func c12Spec(bounds []time.Duration, spacing, unit int) string {
@@ -435,7 +435,7 @@ type c12Finding struct {
 
 func TestC12(t *testing.T) {
 	R := ev.New("C12")
-	R.Rule = "every non-empty increasing sublist of the 8-bound alphabet + three 20-bound lists, x every ordered latency sequence of length <= 2 (thorough: <= 3 for lists of <= 5 bounds) over {b-1,b,b+1 for every bound b, MaxInt64} (>= first bound) and the empty one, x text specs (3 spacings x 8 unit spellings) through UnmarshalText and the report command; a case is distinct+non-trivial when its (entry point, spec text or bounds, latency multiset) differs and either some latency lies on or 1ns next to an interior bound (one that separates two buckets) or it is the no-result rendering of a list with >= 2 bounds"
+	R.Rule = "every non-empty increasing sublist of the 8-bound alphabet + three 20-bound lists, x every ordered latency sequence of length <= 2 (thorough: <= 3 for lists of <= 5 bounds) over {b-1,b,b+1 for every bound b, MaxInt64} (>= first bound) and the empty one, x text specs (5 spacings incl. tab and line break x 8 unit spellings) through UnmarshalText and the report command; a case is distinct+non-trivial when its (entry point, spec text or bounds, latency multiset) differs and either some latency lies on or 1ns next to an interior bound (one that separates two buckets) or it is the no-result rendering of a list with >= 2 bounds"
 	R.Assume("time.ParseDuration / Duration.String, encoding/json and text/tabwriter are trusted")
 	R.Assume("the report command rejects an input without any decodable result ('can't detect encoding') before it renders anything, so the no-result renderings are exercised on the reporters the command uses (NewHistogramReporter, NewJSONReporter, Histogram.MarshalJSON) and not through report(); this is noted, not asserted")
 	R.Assume("latencies below the first bound and non-increasing bound lists are outside the property")
